@@ -49,8 +49,10 @@ Tpl(i, ds) ==
          [] OTHER     -> Bn("sub", d1, Bn("div", d2, N("2")))
 
 \* "noparams": one component, no parameters block at all (degenerate shape the templates must survive)
-CompLayouts == {"single", "split", "noparams"}
-CompOf(layout, n) == IF layout \in {"single", "noparams"} THEN ""
+\* "annotated": one component, with unit / description annotations on declarations and unit comments on
+\*              assignment lines (inert for every numerical observation: C17; preserved by save/load: C11)
+CompLayouts == {"single", "split", "noparams", "annotated"}
+CompOf(layout, n) == IF layout \in {"single", "noparams", "annotated"} THEN ""
                      ELSE IF n \in {"x", "p", "u", "c", "dx_dt"} THEN "A" ELSE "B"
 
 VARIABLES deps, sched, i, layout, pc,
@@ -61,6 +63,11 @@ Perms(S) == {p \in [1..Cardinality(S) -> S] : \A a, b \in 1..Cardinality(S) : a 
 
 \* the model text
 Entry(n, e) == [name |-> n, e |-> e]
+UnitOf(n) == CASE n = "x" -> "mV" [] n = "y" -> "" [] n = "p" -> "ms**-1" [] n = "q" -> "" [] n = "u" -> "pA*pF**-1"
+               [] n = "dx_dt" -> "mV*ms**-1" [] OTHER -> ""
+DescOf(n) == CASE n = "x" -> "membrane potential" [] n = "q" -> "a rate" [] OTHER -> ""
+Annot(bs) == [b \in 1..Len(bs) |-> [bs[b] EXCEPT !.entries =
+                 [j \in 1..Len(@) |-> [name |-> @[j].name, e |-> @[j].e, unit |-> UnitOf(@[j].name), desc |-> DescOf(@[j].name)]]]]
 BlocksFor(d, c, names) ==
   LET sts == SelectSeq(States, LAMBDA n : n \in names)
       prs == SelectSeq(Params, LAMBDA n : n \in names)
@@ -75,6 +82,7 @@ AllN == SeqSet(States) \cup SeqSet(Params) \cup SeqSet(Build)
 ModelOf(d, lo) ==
   IF lo = "single" THEN [blocks |-> BlocksFor(d, "", AllN)]
   ELSE IF lo = "noparams" THEN [blocks |-> BlocksFor(d, "", AllN \ SeqSet(Params))]
+  ELSE IF lo = "annotated" THEN [blocks |-> Annot(BlocksFor(d, "", AllN))]
   ELSE [blocks |-> BlocksFor(d, "A", {n \in AllN : CompOf(lo, n) = "A"})
                    \o BlocksFor(d, "B", {n \in AllN : CompOf(lo, n) = "B"})]
 
@@ -137,12 +145,16 @@ Toks(e) == Render(e, "min")
 RECURSIVE BlocksJson(_)
 BlocksJson(bs) == IF bs = <<>> THEN <<>> ELSE
    <<[k |-> Head(bs).k, comp |-> Head(bs).comp,
-      entries |-> [j \in 1..Len(Head(bs).entries) |-> [name |-> Head(bs).entries[j].name, toks |-> Toks(Head(bs).entries[j].e)]]]>>
+      entries |-> [j \in 1..Len(Head(bs).entries) |->
+                     IF "unit" \in DOMAIN Head(bs).entries[j]
+                     THEN [name |-> Head(bs).entries[j].name, toks |-> Toks(Head(bs).entries[j].e),
+                           unit |-> Head(bs).entries[j].unit, desc |-> Head(bs).entries[j].desc]
+                     ELSE [name |-> Head(bs).entries[j].name, toks |-> Toks(Head(bs).entries[j].e)]]]>>
    \o BlocksJson(Tail(bs))
 DepCount == Cardinality(UNION {deps[n] : n \in DOMAIN deps})
 Hash == LET RECURSIVE H(_)
             H(j) == IF j > Len(Build) THEN 0 ELSE (j * 7 + 3) * (1 + Cardinality(deps[Build[j]]) + 2 * Cardinality(deps[Build[j]] \cap {"x", "q", "u"})) + H(j + 1)
-        IN H(1) + (IF layout = "single" THEN 0 ELSE IF layout = "split" THEN 5 ELSE 11)
+        IN H(1) + (IF layout = "single" THEN 0 ELSE IF layout = "split" THEN 5 ELSE IF layout = "noparams" THEN 11 ELSE 17)
 Expect(inp) ==
   LET den == DenAll(mi, inp) IN
   [rhs |-> DerivsByState(den), monitor |-> [n \in mi.aN |-> den[n]],
